@@ -25,6 +25,8 @@ package contractcourt
 import (
 	"bytes"
 	"context"
+	"errors"
+	"io"
 	"time"
 
 	"github.com/btcsuite/btcd/chainhash/v2"
@@ -433,6 +435,69 @@ func (c13Sweeper) UpdateParams(wire.OutPoint, sweep.Params) (
 	return make(chan sweep.Result, 1), nil
 }
 
+// The fakes below are never reached on the unchanged tree (every resolver is
+// parked before resolveContracts sees it). They only make a changed tree that
+// launches an un-parked resolver fail an obligation instead of crashing the
+// native replay in a goroutine.
+var errC13Outside = errors.New("c13: outside the unit")
+
+type c13ChainIO struct{}
+
+func (c13ChainIO) GetBestBlock() (*chainhash.Hash, int32, error) {
+	return nil, 0, errC13Outside
+}
+
+func (c13ChainIO) GetUtxo(*wire.OutPoint, []byte, uint32,
+	<-chan struct{}) (*wire.TxOut, error) {
+
+	return nil, errC13Outside
+}
+
+func (c13ChainIO) GetBlockHash(int64) (*chainhash.Hash, error) {
+	return nil, errC13Outside
+}
+
+func (c13ChainIO) GetBlock(*chainhash.Hash) (*wire.MsgBlock, error) {
+	return nil, errC13Outside
+}
+
+func (c13ChainIO) GetBlockHeader(*chainhash.Hash) (*wire.BlockHeader, error) {
+	return nil, errC13Outside
+}
+
+type c13Onion struct{}
+
+func (c13Onion) ReconstructHopIterator(io.Reader, []byte,
+	hop.ReconstructBlindingInfo) (hop.Iterator, error) {
+
+	return nil, errC13Outside
+}
+
+type c13ChainNotifier struct{}
+
+func (c13ChainNotifier) RegisterConfirmationsNtfn(*chainhash.Hash, []byte,
+	uint32, uint32, ...chainntnfs.NotifierOption) (
+	*chainntnfs.ConfirmationEvent, error) {
+
+	return nil, errC13Outside
+}
+
+func (c13ChainNotifier) RegisterSpendNtfn(*wire.OutPoint, []byte,
+	uint32) (*chainntnfs.SpendEvent, error) {
+
+	return nil, errC13Outside
+}
+
+func (c13ChainNotifier) RegisterBlockEpochNtfn(
+	*chainntnfs.BlockEpoch) (*chainntnfs.BlockEpochEvent, error) {
+
+	return nil, errC13Outside
+}
+
+func (c13ChainNotifier) Start() error  { return nil }
+func (c13ChainNotifier) Started() bool { return true }
+func (c13ChainNotifier) Stop() error   { return nil }
+
 type c13Notifier struct{}
 
 func (c13Notifier) NotifyFinalHtlcEvent(models.CircuitKey,
@@ -561,7 +626,22 @@ func (w *c13World) boot() *ChannelArbitrator {
 		PreimageDB:           &c13Beacon{mask: sc.preimages},
 		Registry:             &c13Registry{},
 		Sweeper:              c13Sweeper{},
-		HtlcNotifier:         c13Notifier{},
+		ChainIO:              c13ChainIO{},
+		OnionProcessor:       c13Onion{},
+		Notifier:             c13ChainNotifier{},
+		SubscribeBreachComplete: func(*wire.OutPoint,
+			chan struct{}) (bool, error) {
+
+			return false, errC13Outside
+		},
+		IncubateOutputs: func(wire.OutPoint,
+			fn.Option[lnwallet.OutgoingHtlcResolution],
+			fn.Option[lnwallet.IncomingHtlcResolution],
+			uint32, fn.Option[int32], ...IncubateOption) error {
+
+			return errC13Outside
+		},
+		HtlcNotifier: c13Notifier{},
 		IsForwardedHTLC: func(_ lnwire.ShortChannelID, idx uint64) bool {
 			return (sc.forwarded>>(idx&15))&1 == 1
 		},
@@ -648,7 +728,10 @@ func (w *c13World) commitSet(key HtlcSetKey) CommitSet {
 }
 
 func c13SignDesc(value int64) input.SignDescriptor {
-	return input.SignDescriptor{Output: &wire.TxOut{Value: value}}
+	return input.SignDescriptor{
+		WitnessScript: []byte{0x51},
+		Output:        &wire.TxOut{Value: value, PkScript: []byte{0x00, 0x14}},
+	}
 }
 
 // c13LocalCloseTx is our commitment transaction as the chain watcher reports
